@@ -123,6 +123,8 @@ Definition at_parent_of (x : nid) (f : list itree -> list itree) (t : itree) : o
   match t with INode i p kids => if existsb (has_id x) kids then Some (INode i p (f kids), tt) else None end.
 Definition at_node (x : nid) (f : itree -> itree) (t : itree) : option (itree * unit) :=
   if has_id x t then Some (f t, tt) else None.
+Definition at_tag (x : nid) (f : itree -> itree) (t : itree) : option (itree * unit) :=
+  if has_id x t && nkind_eqb (ikind t) NTag then Some (f t, tt) else None.
 Definition g_extract (x : nid) (t : itree) : option (itree * itree) :=
   match t with
   | INode i p kids => match take_id x kids with Some (u, kids') => Some (INode i p kids', u) | None => None end
@@ -194,14 +196,14 @@ Definition apply_a (u : upd) (w : world) : world :=
   | UAddFollowing x n => a_move n any_node (fun t => at_parent_of x (ins_after x t)) w
   | UTextAddPreceding x n => a_move n any_node (g_before x) w
   | UAddPrevious x n => a_move n any_node (g_before x) w
-  | UBindData p n => a_move n is_itext (fun t => at_node p (fun q => INode (iid q) (ipayload q) (t :: ikids q))) w
+  | UBindData p n => a_move n is_itext (fun t => at_tag p (fun q => INode (iid q) (ipayload q) (t :: ikids q))) w
   | UAppendEl p n =>
-      a_move n (fun t => negb (is_itext t)) (fun t => at_node p (fun q => INode (iid q) (ipayload q) (ikids q ++ [t]))) w
+      a_move n (fun t => negb (is_itext t)) (fun t => at_tag p (fun q => INode (iid q) (ipayload q) (ikids q ++ [t]))) w
   | UDetach x => match w_rw (g_extract x) w with Some (w1, t) => add_loose t w1 | None => w end
   | USetContent x s =>
       if is_loose w x then {| docs := docs w; loose := set_text_first x s (loose w) |}
       else match w_rw (at_parent_of x (set_text_first x s)) w with Some (w1, _) => w1 | None => w end
-  | UMerge p => match w_rw (at_node p merge_tree) w with Some (w1, _) => w1 | None => w end
+  | UMerge p => match w_rw (at_tag p merge_tree) w with Some (w1, _) => w1 | None => w end
   end.
 
 (* ---- scripts ---- *)
